@@ -137,7 +137,7 @@ func genC03(dir, tier string, seed int64) {
 	hdr := "From Coq Require Import List String ZArith.\nFrom V Require Import DType Case CheckC03.\nFrom Gen Require Import OpTable.\nImport ListNotations.\nOpen Scope string_scope.\nOpen Scope Z_scope.\nDefinition cases : list opcase := ["
 	ftr := "].\nDefinition verdicts := Eval vm_compute in map (verdict optable13) cases.\nPrint verdicts.\nDefinition kinds := Eval vm_compute in map kind cases.\nPrint kinds."
 	cw := newCaseWriter(dir, "C03_ops", hdr, ftr,
-		"seeded random: 12 operators x every dtype the gate accepts (read from the operator itself) x shape pairs of rank 0..3 extents 1..3 (B derived from A by dropping leading axes / setting axes to 1 / stretching 1s, 1 in 4 unrelated; either operand may be the larger) x value pools with NaN, +-Inf, +-0, subnormals, max finite, integer extremes and wrap-around operands; integer divisors never 0 (undefined by the property)", false, 400)
+		"seeded random: 12 operators x every dtype the gate accepts (read from the operator itself) x shape pairs of rank 0..3 extents 1..3 (B derived from A by dropping leading axes / setting axes to 1 / stretching 1s, 1 in 4 unrelated; either operand may be the larger; one pair in six with extents 4..6 that divide one another or are coprime) x value pools with NaN, +-Inf, +-0, subnormals, max finite, integer extremes and wrap-around operands; integer divisors never 0 (undefined by the property)", false, 400)
 	r := rand.New(rand.NewSource(seed))
 	names := []string{"Add", "Sub", "Mul", "Div", "Equal", "Greater", "GreaterOrEqual", "Less", "LessOrEqual", "And", "Or", "Xor"}
 	shapes := shapesUpToRank(0, 3, []int{1, 2, 3})
@@ -177,6 +177,18 @@ func genC03(dir, tier string, seed int64) {
 				}
 				if r.Intn(5) == 0 {
 					sb = append([]int{1 + r.Intn(2)}, sb...)
+				}
+			}
+			if r.Intn(6) == 0 {
+				// larger extents, the clashing ones multiples of one another (2|4, 3|6, 2|6) or coprime (4,5)
+				pairs := [][2]int{{2, 4}, {3, 6}, {2, 6}, {4, 5}, {4, 4}, {1, 5}, {5, 1}, {4, 2}}
+				p := pairs[r.Intn(len(pairs))]
+				sa, sb = []int{p[0]}, []int{p[1]}
+				if r.Intn(2) == 0 {
+					sa, sb = []int{2, p[0]}, []int{p[1]}
+				}
+				if r.Intn(3) == 0 {
+					sa, sb = []int{p[0], 3}, []int{p[1], 3}
 				}
 			}
 			if r.Intn(2) == 0 {
